@@ -243,9 +243,9 @@ def obs_frame(env, f):
     sf = env.sf
     if isinstance(f, sf.Frame):
         return ['F', env.obs(f.index.values.tolist()), env.obs(f.columns.values.tolist()),
-                env.obs(f.values.tolist()) if f.shape[0] and f.shape[1] else [list(f.shape)], [dt.kind for dt in f._blocks._dtypes]]
+                env.obs(f.values.tolist()) if f.shape[0] and f.shape[1] else [list(f.shape)], [(str(dt) if dt.kind in 'US' else dt.kind) for dt in f._blocks._dtypes]]
     if isinstance(f, sf.Series):
-        return ['S', env.obs(f.index.values.tolist()), env.obs(f.values.tolist()), f.values.dtype.kind]
+        return ['S', env.obs(f.index.values.tolist()), env.obs(f.values.tolist()), str(f.values.dtype)]
     return ['E', env.obs(f)]
 
 
@@ -336,14 +336,22 @@ KIND_OPS = [
     ('sort_cols_desc', lambda f, k, xp: f.sort_columns(ascending=False)), ('reindex_cols', lambda f, k, xp: f.reindex(columns=['d', 'b', 'zz'], fill_value=-1)),
     ('rename_insert', lambda f, k, xp: f.insert_after('b', f['a'].rename('new'))),
 ]
-COL_KEYS4 = (slice(1, 3), slice(None, None, -1), [2, 0], [True, False, True, True])
+COL_KEYS4 = (slice(1, 3), [2, 0], [True, False, True, True], slice(None, None, -1))
 BINOP_OPS = [('add_frame', lambda f, k, xp: f + f.iloc[:, k]), ('lt_frame', lambda f, k, xp: f.iloc[:, k] < f)]
-K4 = (('int64', (3, 4)), ('float64', (1.5, 2.5)), ('bool', (True, False)))
+K4 = (('int64', (3, 4)), ('float64', (1.5, 2.5)), ('bool', (True, False)), ('object', (7, 'zz')), ('<U4', ('c', 'abcd')))
+# per column: which kinds it may take (index into K4); the first entry is the value of the symbolic selector 0
+K4_CHOICES = ((0, 1), (1, 0, 2), (1, 3, 4), (0, 2, 4))       # groups that move cells without computing on them
+K4_CHOICES_NUM = ((0, 1), (0, 1, 2), (0, 1, 1), (0, 1, 2))   # groups with arithmetic: numeric kinds and bool only
 
 
-def _lays_for(kinds):
+def _lays_for(kinds, every=True):
     out = []
     for lay in layouts.compositions(len(kinds)):
+        if not every:
+            # quick tier: per width pattern only "all one-column blocks 1-D" and "all one-column blocks 2-D"
+            forms = {nd for nd, w in lay if w == 1}
+            if len(forms) > 1:
+                continue
         j, ok = 0, True
         for nd, w in lay:
             if len(set(kinds[j:j + w])) > 1:
@@ -355,15 +363,21 @@ def _lays_for(kinds):
 
 
 def mk_kinds_all_layouts(group, tier='quick', pre=(), suffix='', part='all'):
-    ops = {'select': KIND_OPS[0:4], 'update': KIND_OPS[4:8], 'retype': KIND_OPS[8:13], 'views': KIND_OPS[13:18], 'relabel': KIND_OPS[18:], 'binop': BINOP_OPS}[group]
+    byname = dict(KIND_OPS)
+    names = {'select': ('iloc_cols', 'iloc_rows_cols'), 'select_row': ('iloc_row', 'clip_none'), 'update': ('drop_cols', 'mask_cols', 'assign_cols', 'astype_cols'),
+             'arith': ('add_scalar', 'eq_scalar', 'isin'), 'retype': ('consolidate', 'shift_cols', 'roll_cols', 'transpose'),
+             'views': ('to_pairs', 'iter_tuple', 'dtypes', 'iter_series0'), 'relabel': ('sort_cols_desc', 'reindex_cols', 'rename_insert')}
+    ops = BINOP_OPS if group == 'binop' else [(n, byname[n]) for n in names[group]]
+    uses_key = group in ('select', 'select_row', 'update', 'arith', 'binop')
 
-    def body(env, k1, k2, k3, ck):
+    def body(env, k0, k1, k2, k3, ck):
         from vf import rt
-        kinds = [0]
-        for k in (k1, k2, k3):
-            for c in range(3):
+        kinds = []
+        choices = K4_CHOICES if group in ('select', 'select_row', 'update') else K4_CHOICES_NUM
+        for col, k in enumerate((k0, k1, k2, k3)):
+            for c in range(len(choices[col])):
                 if k == c:
-                    kinds.append(c)
+                    kinds.append(choices[col][c])
         key = None
         for i, kk in enumerate(COL_KEYS4):
             if ck == i:
@@ -379,6 +393,8 @@ def mk_kinds_all_layouts(group, tier='quick', pre=(), suffix='', part='all'):
                     cols[c] = [3 + 10 * c, 4 + 10 * c]
                 elif kinds[c] == 1:
                     cols[c] = [1.5 + c, 2.5 + c]
+                elif kinds[c] == 3:
+                    cols[c] = [7 + c, 'zz']
             dts = [K4[k][0] for k in kinds]
 
             def results(lay):
@@ -399,22 +415,23 @@ def mk_kinds_all_layouts(group, tier='quick', pre=(), suffix='', part='all'):
                         out.append([name, 'raises', type(e).__name__])
                 return out
             can = results(canonical(4))
-            lays = _lays_for(kinds)
+            lays = _lays_for(kinds, every=(tier != 'quick'))
             got = [results(lay) for lay in lays]
             return got, [can] * len(lays)
         return rt.untraced(run)
-    return Cond(f'frame_ops_all_layouts_kinds_{group}{suffix}', [('k1', 'int'), ('k2', 'int'), ('k3', 'int'), ('ck', 'int')], body,
-            ranges={'k1': (0, 2), 'k2': (0, 1), 'k3': (0, 2), 'ck': (0, len(COL_KEYS4) - 1)}, pre=list(pre),
+    return Cond(f'frame_ops_all_layouts_kinds_{group}{suffix}' + ('' if tier == 'quick' else '_every'), [('k0', 'int'), ('k1', 'int'), ('k2', 'int'), ('k3', 'int'), ('ck', 'int')], body,
+            ranges={'k0': (0, 1), 'k1': (0, 1 if tier == 'quick' else 2), 'k2': (0, 2), 'k3': (0, 2), 'ck': (0, (2 if tier == 'quick' else 3))}, pre=list(pre) + ([] if group in ('select', 'select_row', 'update') else ['k2 != 2']) + ([] if uses_key else ['ck == 0']),
             functions=['TypeBlocks._extract', 'TypeBlocks._drop_blocks'] if group == 'select' else [],
-            bounds=f'2x4 frame; column kinds symbolic over (int64, float64[, bool]); column key symbolic over {COL_KEYS4}; EVERY block layout that can hold the kinds against one block per column; operations: ' + ', '.join(n for n, _ in ops),
+            bounds=f'2x4 frame; column kinds symbolic (per column a choice among int64, float64, bool, object holding an int and a str, <U4 holding a shorter string); column key symbolic over {COL_KEYS4}; EVERY block layout that can hold the kinds against one block per column; operations: ' + ', '.join(n for n, _ in ops),
             route='keyed and whole-frame operations on mixed column kinds: values, labels, per-column dtype kinds and raised error class equal across all block layouts', tier=tier, timeout=600)
 
 
-for _g in ('select', 'update', 'retype', 'views', 'relabel'):
+for _g in ('select', 'select_row', 'update', 'arith', 'retype', 'views', 'relabel'):
     _add(mk_kinds_all_layouts(_g))
+    _add(mk_kinds_all_layouts(_g, tier='thorough')).timeout = 1800
 # Frame op Frame: labels and cells are decided here; the per-column DTYPES of the result depend on whether the two operands'
 # blockings are compatible (incompatible blockings are consolidated to the row dtype first): finding F31, isolated below
-_add(mk_kinds_all_layouts('binop', part='values', suffix='_values', pre=['k1 != 2 and k3 != 2']))
+_add(mk_kinds_all_layouts('binop', part='values', suffix='_values', pre=['k1 != 2 and k3 != 2 and k2 != 2']))
 # (with a bool column the consolidated object arithmetic also changes VALUES: True + True is True in a bool block, 2 as objects)
-_add(mk_kinds_all_layouts('binop', part='values', suffix='_values_bool_finding', pre=['k1 == 2 or k3 == 2']))
+_add(mk_kinds_all_layouts('binop', part='values', suffix='_values_bool_finding', pre=['(k1 == 2 or k3 == 2) and k2 != 2']))
 _add(mk_kinds_all_layouts('binop', part='dtypes', suffix='_dtypes_finding'))
